@@ -699,3 +699,98 @@ func VH07f_chain() {
 	verif.Reach("chain-expired")
 	sock.Close()
 }
+
+// VH07g_many_contexts: M (5) contexts of one SURVEYOR socket each with a survey
+// in progress; one of them (any position, or none) ends early -- closed,
+// superseded by a new survey, or expired (its survey time is shorter). A
+// response for every survey id arrives from either respondent, in reverse
+// order: every context with a live survey receives exactly the response to its
+// own survey; the ended one receives nothing for the old survey; nobody gets
+// another context's response.
+func VH07g_many_contexts() {
+	M := verif.Param("M", 5)
+	lab := "C07/many-contexts"
+	sock := vp.New("surveyor")
+	verif.Assert(sock.SetOption(mangos.OptionSurveyTime, time.Minute) == nil, lab+"/set-survey-time")
+	side := vt.Listen(sock, "a")
+	pipes := []*vt.Pipe{side.Peer("r0"), side.Peer("r1")}
+	endAt := verif.Choice("ends", M+1) - 1
+	way := 0
+	if endAt >= 0 {
+		way = verif.Choice("way", 3)
+	}
+	var cs []mangos.Context
+	var ids []uint32
+	for i := 0; i < M; i++ {
+		c, err := sock.OpenContext()
+		verif.Assert(err == nil, lab+"/open-context")
+		if err != nil {
+			return
+		}
+		T := time.Minute
+		if i == endAt && way == 2 {
+			T = time.Second
+		}
+		verif.Assert(c.SetOption(mangos.OptionSurveyTime, T) == nil, lab+"/set-survey-time-ctx")
+		cs = append(cs, c)
+		verif.Assert(c.Send([]byte{byte(i)}) == nil, lab+"/survey")
+		verif.Quiesce()
+		n := len(pipes[0].Sent)
+		verif.Assert(n == i+1 && len(pipes[0].Sent[n-1].H) == 4, lab+"/survey-not-sent-once")
+		if n != i+1 || len(pipes[0].Sent[n-1].H) != 4 {
+			return
+		}
+		id := be32(pipes[0].Sent[n-1].H)
+		for _, o := range ids {
+			verif.Assert(o != id, lab+"/survey-ids-distinct")
+		}
+		ids = append(ids, id)
+	}
+	var newID uint32
+	if endAt >= 0 {
+		switch way {
+		case 0:
+			verif.Assert(cs[endAt].Close() == nil, lab+"/context-close")
+		case 1:
+			verif.Assert(cs[endAt].Send([]byte{99}) == nil, lab+"/new-survey")
+			verif.Quiesce()
+			n := len(pipes[0].Sent)
+			newID = be32(pipes[0].Sent[n-1].H)
+		case 2:
+			verif.Assert(verif.FireTimer(), lab+"/no-expiry-timer")
+		}
+		verif.Quiesce()
+	}
+	for i := M - 1; i >= 0; i-- {
+		id := ids[i]
+		pipes[i%2].Deliver([]byte{byte(id >> 24), byte(id >> 16), byte(id >> 8), byte(id), byte(100 + i)})
+		verif.Quiesce()
+	}
+	for i, c := range cs {
+		c := c
+		var m *mangos.Message
+		var err error
+		g := verif.Go("recv", func() { m, err = c.RecvMsg() })
+		verif.Quiesce()
+		if i == endAt {
+			if way == 1 {
+				verif.Assert(!g.Done(), lab+"/response-to-the-superseded-survey-delivered")
+				pipes[0].Deliver([]byte{byte(newID >> 24), byte(newID >> 16), byte(newID >> 8), byte(newID), 199})
+				verif.Quiesce()
+				verif.Assert(g.Done() && err == nil && len(m.Body) == 1 && m.Body[0] == 199, lab+"/response-to-the-new-survey-not-delivered")
+			} else {
+				verif.Assert(g.Done() && err != nil, lab+"/ended-survey-delivers-a-response")
+			}
+			continue
+		}
+		verif.Assert(g.Done() && err == nil, lab+"/context-did-not-get-the-response-to-its-survey")
+		if g.Done() && err == nil {
+			verif.Assert(len(m.Body) == 1 && m.Body[0] == byte(100+i), lab+"/context-got-another-contexts-response")
+		}
+		g2 := verif.Go("recv-extra", func() { c.RecvMsg() })
+		verif.Quiesce()
+		verif.Assert(!g2.Done(), lab+"/context-got-a-second-response")
+	}
+	verif.Reach("many-contexts-surveyed")
+	sock.Close()
+}
